@@ -129,7 +129,28 @@ impl ProcOut {
             .filter(|l| !l.starts_with("SKASIM-STATS") && !l.contains('⬛') && !l.contains('⬜'))
             .collect();
         let n = lines.len();
-        lines[n.saturating_sub(6)..].join(" | ")
+        let t = lines[n.saturating_sub(6)..].join(" | ");
+        // a panic message carries the OS thread id ("thread 'main' (12345) panicked"): it must not
+        // reach an event log or a message, both have to be the same in every execution
+        let mut out = String::with_capacity(t.len());
+        let b = t.as_bytes();
+        let mut i = 0;
+        while i < b.len() {
+            if b[i] == b'(' {
+                let mut j = i + 1;
+                while j < b.len() && b[j].is_ascii_digit() {
+                    j += 1;
+                }
+                if j > i + 1 && j < b.len() && b[j] == b')' && t[j + 1..].starts_with(" panicked") {
+                    out.push_str("(tid)");
+                    i = j + 1;
+                    continue;
+                }
+            }
+            out.push(b[i] as char);
+            i += 1;
+        }
+        out
     }
 }
 
